@@ -232,6 +232,24 @@ pub struct Gen {
     pub max_rep: usize,
     /// occasionally very long strings (instructions above 1023 words)
     pub long_strings: bool,
+    /// result ids occasionally take the extreme values 0, 0x7fffffff, 0x80000000, 0xffffffff
+    /// (each defined at most once); set from the thread's edge-id mode
+    pub edge_ids: bool,
+    pub edge_used: Vec<u32>,
+}
+
+thread_local! {
+    static EDGE_IDS: std::cell::Cell<bool> = const { std::cell::Cell::new(false) };
+}
+
+/// Runs `f` with generators in edge-id mode: result ids (hence type ids and selectors) are
+/// occasionally 0 / 0x7fffffff / 0x80000000 / 0xffffffff. Kept out of the default mode so that
+/// stored choice streams keep their meaning.
+pub fn with_edge_ids<T>(f: impl FnOnce() -> T) -> T {
+    EDGE_IDS.with(|c| c.set(true));
+    let r = f();
+    EDGE_IDS.with(|c| c.set(false));
+    r
 }
 
 impl Gen {
@@ -246,7 +264,21 @@ impl Gen {
             typed_ids: vec![],
             max_rep: 6,
             long_strings: false,
+            edge_ids: EDGE_IDS.with(|c| c.get()),
+            edge_used: vec![],
         }
+    }
+    /// fresh result id; in edge-id mode occasionally an extreme value not used before
+    pub fn fresh_cs(&mut self, cs: &mut Cs) -> u32 {
+        if self.edge_ids && cs.below(6) == 0 {
+            const EDGE: [u32; 4] = [0, u32::MAX, 0x8000_0000, 0x7fff_ffff];
+            let e = EDGE[cs.below(4)];
+            if !self.edge_used.contains(&e) {
+                self.edge_used.push(e);
+                return e;
+            }
+        }
+        self.fresh()
     }
     pub fn fresh(&mut self) -> u32 {
         let v = self.next_id;
@@ -597,7 +629,7 @@ impl Gen {
                     body.push(t);
                 }
                 K::IdResult => {
-                    let r = self.fresh();
+                    let r = self.fresh_cs(cs);
                     rid = Some(r);
                     body.push(r);
                 }
